@@ -61,8 +61,9 @@ type c19Cfg struct {
 	Days       int
 	Gzip       bool
 	Delim      string
-	Names      string // "counter" | "real"
-	Pre        []int  // ages of the pre-existing backups, hours
+	Names      string // "counter" | "real" | "yesterday" | "hours"
+	Pre        []int  // ages of the pre-existing backups, hours ("hours": hours after the base midnight)
+	Rot        []int  // "hours": the k-th file is started this many hours after the base midnight
 	PreGz      string // "" = as Gzip | "mixed" = every second pre-existing backup the other way
 	PreCur     int    // bytes already in the current file
 	Via        string
@@ -74,6 +75,9 @@ func c19ParseCfg(m kit.M) c19Cfg {
 		PreCur: kit.Num(m["precur"]), Via: kit.Str(m["via"]), PreGz: kit.Str(m["pregz"])}
 	for _, a := range kit.List(m["pre"]) {
 		c.Pre = append(c.Pre, kit.Num(a))
+	}
+	for _, a := range kit.List(m["rot"]) {
+		c.Rot = append(c.Rot, kit.Num(a))
 	}
 	if c.Delim == "" {
 		c.Delim = backupFileDelimiter
@@ -94,6 +98,47 @@ type c19Rule struct {
 	calls    atomic.Int64 // ShallRotate calls so far
 	markerAt atomic.Int64 // the call with this number is the driver's empty barrier record
 	markers  int64        // barrier records sent so far (driver goroutine only)
+	// the name handed out by the latest BackupFilename call and the instant it stands for: the logger
+	// uses it at the NEXT rotation (guarded by w.regMu)
+	pendName string
+	pendT    time.Time
+}
+
+// c19NameLayout is the layout of the time in a size-rule backup name as the logger documents it
+// (RFC 3339).  The driver names the pre-existing backups with it and never DECODES a backup name
+// with the package's own layout constant: which instant a backup stands for is known to the driver
+// (c19World.reg), so that "newest" and "older than" are judged in true time order whatever the
+// names look like.
+const c19NameLayout = time.RFC3339
+
+// named: BackupFilename has just handed out `name` for the file started at instant t.  The name
+// handed out before is the one the rotation that led to this call has renamed the old file to.
+func (w *c19World) named(r *c19Rule, name string, t time.Time) {
+	w.regMu.Lock()
+	defer w.regMu.Unlock()
+	if r.pendName != "" {
+		w.reg[filepath.Base(r.pendName)] = r.pendT
+	}
+	r.pendName, r.pendT = name, t
+}
+
+// hourTime: `off` hours (and 30 minutes) after the local midnight three days before the case
+func (w *c19World) hourTime(off int) time.Time {
+	y, m, d := w.now0.Date()
+	return time.Date(y, m, d-3, off, 30, 0, 0, time.Local)
+}
+
+// rotOff: start of the k-th file (k = 1, 2, ...) in hours after the base midnight; beyond the
+// configured instants one hour apart
+func (w *c19World) rotOff(k int) int {
+	n := len(w.cfg.Rot)
+	if n == 0 {
+		return k
+	}
+	if k <= n {
+		return w.cfg.Rot[k-1]
+	}
+	return w.cfg.Rot[n-1] + (k - n)
 }
 
 func (r *c19Rule) BackupFilename() string {
@@ -102,14 +147,31 @@ func (r *c19Rule) BackupFilename() string {
 		// the current file was started yesterday: the real daily name of yesterday
 		return fmt.Sprintf("%s%s%s", r.f.filename, r.w.cfg.Delim, r.w.now0.Add(-24*time.Hour).Format(dateFormat))
 	}
-	if r.w.cfg.Names != "counter" {
-		return r.inner.BackupFilename()
+	w, f := r.w, r.f
+	if w.cfg.Names != "counter" && w.cfg.Names != "hours" {
+		t := time.Now()
+		name := r.inner.BackupFilename()
+		if w.cfg.Rule == "size" {
+			w.named(r, name, t)
+		}
+		return name
 	}
 	r.k++
-	w, f := r.w, r.f
 	if w.cfg.Rule == "size" {
+		// the name the real rule gives to a file started at instant t (SizeLimitRotateRule.BackupFilename
+		// with the clock at t; the package has no clock hook)
 		t := w.now0.Add(-1800 * time.Second).Add(time.Duration(r.k) * time.Second)
-		return filepath.Join(w.dir, fmt.Sprintf("%s%s%s%s", f.prefix, w.cfg.Delim, t.Format(fileTimeFormat), f.ext))
+		if w.cfg.Names == "hours" {
+			t = w.hourTime(w.rotOff(r.k))
+			if h := t.Hour(); h >= 1 && h <= 12 {
+				w.hoursAM.Add(1)
+			} else {
+				w.hoursPM.Add(1)
+			}
+		}
+		name := filepath.Join(w.dir, fmt.Sprintf("%s%s%s%s", f.prefix, w.cfg.Delim, t.Format(fileTimeFormat), f.ext))
+		w.named(r, name, t)
+		return name
 	}
 	return fmt.Sprintf("%s%s%s.%03d", f.filename, w.cfg.Delim, w.now0.Format(dateFormat), r.k)
 }
@@ -238,6 +300,11 @@ type c19World struct {
 	fams    []*c19Fam
 	base    int
 	public  bool
+	// size rule: the instant every backup name stands for (key: base name without .gz) - of the
+	// pre-existing backups as the driver created them, of the logger's own as BackupFilename was asked
+	regMu            sync.Mutex
+	reg              map[string]time.Time
+	hoursAM, hoursPM atomic.Int64 // "hours": files started at 01..12 h / at 00, 13..23 h
 }
 
 var c19Line = regexp.MustCompile(`^#(\d+) x*$`)
@@ -333,7 +400,10 @@ func c19ReadFile(path string, gz bool) ([]byte, error) {
 func (w *c19World) backupName(f *c19Fam, t time.Time, gz bool) string {
 	var name string
 	if w.cfg.Rule == "size" {
-		name = filepath.Join(w.dir, fmt.Sprintf("%s%s%s%s", f.prefix, w.cfg.Delim, t.Format(fileTimeFormat), f.ext))
+		name = filepath.Join(w.dir, fmt.Sprintf("%s%s%s%s", f.prefix, w.cfg.Delim, t.Format(c19NameLayout), f.ext))
+		w.regMu.Lock()
+		w.reg[filepath.Base(name)] = t
+		w.regMu.Unlock()
 	} else {
 		name = fmt.Sprintf("%s%s%s", f.filename, w.cfg.Delim, t.Format(dateFormat))
 	}
@@ -358,8 +428,15 @@ func (w *c19World) parseName(f *c19Fam, base string) (ts, ageh int, gz, ok bool)
 		if !strings.HasPrefix(rest, head) || !strings.HasSuffix(rest, f.ext) {
 			return
 		}
+		// the instant the backup stands for is the driver's knowledge; a name the driver has not
+		// seen handed out is decoded as RFC 3339
+		w.regMu.Lock()
+		t0, known := w.reg[rest]
+		w.regMu.Unlock()
 		rest = strings.TrimSuffix(strings.TrimPrefix(rest, head), f.ext)
-		if t, err = time.Parse(fileTimeFormat, rest); err != nil {
+		if known {
+			t = t0
+		} else if t, err = time.Parse(c19NameLayout, rest); err != nil {
 			return
 		}
 		ts = int(t.Unix() - w.now0.Unix())
@@ -526,7 +603,7 @@ func runC19Case(c kit.Case, root string, tr *kit.Tracer, rep *kit.Reporter) (v k
 		return infra(fmt.Errorf("history does not start with init"))
 	}
 	cfgm, _ := c.Steps[0]["cfg"].(map[string]any)
-	w := &c19World{cfg: c19ParseCfg(cfgm), sizes: map[int]int{}, linelen: map[int]int{}}
+	w := &c19World{cfg: c19ParseCfg(cfgm), sizes: map[int]int{}, linelen: map[int]int{}, reg: map[string]time.Time{}}
 	w.public = w.cfg.Via == "public"
 	w.dir = filepath.Join(root, fmt.Sprintf("case-%d", c.Index))
 	os.RemoveAll(w.dir)
@@ -575,7 +652,11 @@ func runC19Case(c kit.Case, root string, tr *kit.Tracer, rep *kit.Reporter) (v k
 			}
 			content = append(content, rec...)
 		}
-		name := w.backupName(main, w.now0.Add(-time.Duration(age)*time.Hour), gz)
+		at := w.now0.Add(-time.Duration(age) * time.Hour)
+		if w.cfg.Names == "hours" {
+			at = w.hourTime(age) // the hour of the day is the dimension: `age` hours after the base midnight
+		}
+		name := w.backupName(main, at, gz)
 		if gz {
 			var buf bytes.Buffer
 			zw := gzip.NewWriter(&buf)
@@ -936,6 +1017,14 @@ func runC19Case(c kit.Case, root string, tr *kit.Tracer, rep *kit.Reporter) (v k
 			return infra(fmt.Errorf("unknown op %q", op))
 		}
 		v.Steps++
+	}
+	if w.cfg.Names == "hours" {
+		if w.cfg.Rule != "size" || w.cfg.Days != 0 {
+			return infra(fmt.Errorf("hour-of-day names are for the size rule without an age limit"))
+		}
+		rep.Count("hours_cases", 1)
+		rep.Count("hours_am_names", int(w.hoursAM.Load()))
+		rep.Count("hours_pm_names", int(w.hoursPM.Load()))
 	}
 	// one history per log file; files of the configuration the case never wrote to are listed
 	// only in the public family (a record must not turn up in another file)
